@@ -308,6 +308,17 @@ def collect(repo):
         "link": ("link", "link", ("_start_link", "_end_link", "_enforce_href", "resolve_uri", "_last_item")),
         "guid": ("guid", "guid", ("_start_guid", "_end_guid", "_save", "_start_item")),
     }
+    # stage 7: authors and contributors (hash fingerprints of the AST-normalised bodies)
+    FP7 = {"_start_author": "d7971c9b450178da457cde13d83ca9e1", "_end_author": "cf91a5df6e563d95d78b44a529849a8f", "_start_contributor": "352f1e6f4cf07ac45cd686b4ceef220b",
+           "_end_contributor": "959e2228a12a49bbb675bcc5eb0b6244", "_start_name": "b2121e396293a7175607c85d83e2ff69", "_end_name": "2a5ab63a733b70a22688a473603a6936",
+           "_start_email": "d7a6367f568ba72cffb4a47a48d26f77", "_end_email": "74a24fcbcb189fc2a091aa1c6c464a5b", "_start_url": "05f404940045c82ada4d491cfba60b0c",
+           "_end_url": "1308fac3c9bb49df0afd8d7fa9ef6b3b", "_save_author": "1370561474080c8303a3603ce271895c", "_save_contributor": "7da203277387369bb6af97a2c3f27050",
+           "_sync_author_detail": "4b63f4fcec55b42eff2288be22324798", "_last_item": "6307f66a70d64b98f4cf10be747cf9dd"}
+    import hashlib as _hl7
+    stage7_ok = all(hasattr(M, n) and _hl7.sha256(body_of(getattr(M, n)).encode()).hexdigest()[:32] == h for n, h in FP7.items())
+    if stage7_ok:
+        KINDS4.update({"author": ("author", "author", ()), "contributor": ("contributor", "contributor", ()), "name": ("name", "name", ()),
+                       "email": ("email", "email", ()), "url": ("url", "url", ())})
     stage4 = []
     for n in handlers(strict, "_start_"):
         for kind, (st, en, need) in KINDS4.items():
